@@ -100,8 +100,17 @@ Chain(e) == IF e.step > 1 /\ st.tid = e.tid /\ ~SameCore(st.g, e.pre) THEN V(PRO
 \* the harness ends a history after a call that hung or left a state it suspects to be damaged; TLC confirms
 HarnessStop(e) == IF e.stopped /\ e.raised \notin {"Hang", "MemoryError", "RecursionError"} /\ WFClause(e.post) = "ok"
                   THEN V(PROP \o ".HarnessStoppedOnWellFormedState", e.action) ELSE None
+\* totality: node arguments exist in the pre-state and satisfy the documented preconditions the harness promises
+NeedsX == {"ReseedAt", "RerootAtNode", "RerootAtEdge", "ToOutgroupPosition", "CollapseEdge", "CollapseClade", "PruneSubtree",
+           "NewChild", "InsertNewChild", "InsertChild", "RemoveChild", "ReAddChild", "Regraft", "RotateChildren"}
+NeedsNonSeed == {"RerootAtEdge", "ToOutgroupPosition", "CollapseEdge", "InsertChild", "RemoveChild", "ReAddChild", "Regraft"}
+NeedsInternal == {"ReseedAt", "RerootAtNode", "CollapseClade", "NewChild", "InsertNewChild", "RotateChildren"}
+ArgsOk(e) == /\ (e.action \in NeedsX => e.x \in 1..e.pre.n)
+             /\ (e.action \in NeedsNonSeed => e.pre.par[e.x] # 0 /\ e.y \in 1..e.pre.n)
+             /\ (e.action \in NeedsInternal => ~IsLeaf(e.pre, e.x))
 Judge(e) ==
     IF WFClause(e.pre) # "ok" THEN (IF e.step = 1 THEN V(PROP \o ".StartWellFormed", WFClause(e.pre)) ELSE None)
+    ELSE IF ~ArgsOk(e) THEN V(PROP \o ".HarnessCallOutsidePrecondition", e.action)
     ELSE (IF PROP = "C03" THEN JudgeC03(e) ELSE JudgeC07(e)) \o JudgeDrift(e) \o HarnessStop(e)
 
 Init == l = 1 /\ bad = <<>> /\ st = [tid |-> -1, g |-> <<>>]
